@@ -101,7 +101,20 @@ func runC17(c *Ctx) {
 	cacheMapValue := func(v ssa.Value) bool { return path(v).lastField() == cache }
 
 	// ---- atomic (openFile) ----
+	// the function that holds the critical section: the open function itself or the helper it delegates to
 	of := c.a.DrvOpenFile
+	for _, f := range c.scope(c.a.DrvOpenFile, 2) {
+		has := false
+		allInstrs(f, func(i ssa.Instruction) {
+			if lk, ok := i.(*ssa.Lookup); ok && cacheMapValue(lk.X) {
+				has = true
+			}
+		})
+		if has {
+			of = f
+			break
+		}
+	}
 	var lookups, inserts, opens, incs []ssa.Instruction
 	allInstrs(of, func(i ssa.Instruction) {
 		switch x := i.(type) {
@@ -174,6 +187,18 @@ func runC17(c *Ctx) {
 
 	// ---- evict (Close) ----
 	cl := c.a.FileConnClose
+	for _, f := range c.scope(c.a.FileConnClose, 2) {
+		has := false
+		allInstrs(f, func(i ssa.Instruction) {
+			if call, ok := i.(*ssa.Call); ok && calleeFunc(&call.Call) == c.a.IndexClose {
+				has = true
+			}
+		})
+		if has {
+			cl = f
+			break
+		}
+	}
 	var dels, idxCloses, decs []ssa.Instruction
 	allInstrs(cl, func(i ssa.Instruction) {
 		call, ok := i.(*ssa.Call)
